@@ -39,7 +39,7 @@ def _fabricate(runs):
 
 def run(sc, tier, replay):
     off = ["noroottypename", "nodupkey", "nodirid", "nofragdirs"]
-    strata = {"core-faults": (off + ["oddids"], 1.0, "faults")}
+    strata = {"core-faults": (off + ["oddids", "richargs"], 1.0, "faults")}
     return fedcheck.run_fed_check(
         sc, tier, PID, ["C09", "C01"], "fault_enumeration",
         {"quick": (110, 10), "thorough": (1600, 20)},
